@@ -612,6 +612,51 @@ fn part3b(deadline: &Deadline) -> Stats {
     total
 }
 
+/// try_iter_static succeeds iff the program reads no output - wherever the read stands and whether
+/// or not the output read has a column in the header (outputs and bidirectional signals of the
+/// signal list that the header does not mention; a declaration that reads one).
+fn part3c(deadline: &Deadline) -> Stats {
+    let sigs = vec![Sig::inp("A", 8, 0), Sig::out("BUSY", 4), Sig::bidir("D", 4, V::Z), Sig::out("Q", 4), Sig::inp("B", 4, 1)];
+    let reads = ["BUSY", "D", "Q", "B0"]; // B0 is no signal: a variable that is bound first
+    let forms: Vec<(&str, Box<dyn Fn(&str) -> String + Send + Sync>)> = vec![
+        ("row", Box::new(|n| format!("({n} + 2)\n"))),
+        ("let", Box::new(|n| format!("let v = {n} * 2;\n(v)\n"))),
+        ("loop bound", Box::new(|n| format!("loop(i, {n} & 1)\n(i)\nend loop\n1\n"))),
+        ("repeat bound", Box::new(|n| format!("repeat({n} & 1) 3\n1\n"))),
+        ("while", Box::new(|n| format!("let c = 0;\nwhile(c < ({n} & 1))\nlet c = c + 1;\n(c)\nend while\n1\n"))),
+        ("declare", Box::new(|n| format!("declare V = {n} + 1;\n1\n"))),
+        ("ite branch never taken", Box::new(|n| format!("(ite(1, 4, {n}))\n"))),
+        ("bits", Box::new(|n| format!("bits(8, {n})\n"))),
+        ("inside a loop that never runs", Box::new(|n| format!("loop(i, 0)\n({n})\nend loop\n1\n"))),
+    ];
+    let headers = ["A", "A Q", "A D_out", "B A"];
+    par_range("part 3c: reads of BUSY / D / Q / a bound variable in 9 places x 4 headers: try_iter_static verdict", (reads.len() * forms.len() * headers.len()) as u64, deadline, |u, st| {
+        let d = crate::engine::digits(u, &[headers.len() as u64, forms.len() as u64, reads.len() as u64]);
+        let (n, (fname, f), h) = (reads[d[2]], &forms[d[1]], headers[d[0]]);
+        let ncol = h.split(' ').count();
+        // the form's rows have one entry: pad every row to the width of the header
+        let body: String = f(n).lines().map(|l| if l.starts_with("let") || l.starts_with("loop") || l.starts_with("end") || l.starts_with("while") || l.starts_with("declare") { format!("{l}\n") } else { format!("{l}{}\n", " X".repeat(ncol - 1)) }).collect();
+        let pre = if n == "B0" { if *fname == "declare" { return } else { "let B0 = 1;\n" } } else { "" };
+        let text = format!("{h}\n{pre}{body}");
+        let Ok(tc) = load(&text, &sigs, DEFAULT_BUDGET) else { return };
+        st.evals += 1;
+        st.nontrivial += 1;
+        let reads_output = n != "B0";
+        let so = run_static(&tc, 20, 1, 50_000);
+        st.witness(if reads_output { "read_of_an_output_without_a_column" } else { "static_program" });
+        let bad = match (&so, reads_output) {
+            (StaticObs::NotStatic(_), true) => None,
+            (StaticObs::Rows(..), false) => None,
+            (StaticObs::Panic(p), _) => Some(format!("static iteration panics: {p}")),
+            (_, true) => Some(format!("try_iter_static succeeds although the program reads the output {n} ({fname})")),
+            (other, false) => Some(format!("try_iter_static refused for a program that reads no output: {other:?}")),
+        };
+        if let Some(m) = bad {
+            st.violation(if reads_output { "static iteration accepted for a program that reads outputs" } else { "static iteration refused for a program that reads no outputs" }, (15 << 40) + u, format!("signals: {}\n{text}{m}", sigs.iter().map(|s| s.show()).collect::<Vec<_>>().join(", ")), || json!({"kind": "static", "text": text, "signals": sigs_json(&sigs), "expected": [if reads_output { "try_iter_static fails" } else { "try_iter_static succeeds" }], "observed": [m.clone()]}));
+        }
+    })
+}
+
 fn part3(tier: Tier, deadline: &Deadline) -> Stats {
     let lists = c01::signal_lists();
     let sigs = lists[0].clone();
@@ -886,6 +931,7 @@ pub fn run(tier: Tier, seed: u64) -> i32 {
     }
     total.merge(part3(tier, &deadline));
     total.merge(part3b(&deadline));
+    total.merge(part3c(&deadline));
     total.sample(|| json!({"part": 2, "model": "k iterators over one TestCase, actions Step(j) / Restart(j), state = position vector; invariant: item p of iterator j equals item p of a solo run, vars() likewise"}));
     let meta = CheckMeta {
         id: "C15",
